@@ -175,3 +175,31 @@ def run(ctx):
         ctx.check("classify:complete", ok and nfeas >= 1,
                   "every candidate that passed the threshold is compared with the running head (none is skipped): a skipped candidate that diverges "
                   "from the head is not reported as Diverging", rules.where(fn, sel[0]), detail={"path": bad[:1]}, fn=fn)
+    threshold_source(ctx)
+
+
+def threshold_source(ctx):
+    """The threshold the vote filter compares with is the identity document's: `Canonical.threshold` is set where the
+    `Canonical` is built, from the threshold argument, and nowhere else (lowering it afterwards — e.g. to the number of
+    tips found — returns a head that fewer than `threshold` delegates back)."""
+    db = ctx.db
+    sites = []
+    for f in db.all_fns():
+        if f["crate"] != "radicle":
+            continue
+        for bb, j, s_ in rules.field_writes(f, "threshold", r"git::canonical::Canonical$"):
+            sites.append((f, bb, j, "assignment"))
+        for bb, j, k, ops in rules.agg_sites(f, r"^radicle::git::canonical::Canonical$"):
+            flds = k.get("fields") or []
+            src = ""
+            for i, o in enumerate(ops):
+                if i < len(flds) and flds[i] == "threshold":
+                    src = nshow(peel(expr_operand(f, o)))
+            sites.append((f, bb, j, "built with threshold = %s" % src))
+    ctx.floor("who:Canonical.threshold", len(sites), 1, "places where Canonical.threshold is set")
+    for f, bb, j, what in sites:
+        rk = db.root_of(f)["key"]
+        ok = what.startswith("built") and re.search(r"^arg\d+$", what.rsplit("= ", 1)[-1]) is not None
+        ctx.check("who:Canonical.threshold:%s" % cfg.short(rk), ok,
+                  "Canonical.threshold is only ever the threshold argument given when the Canonical is built (%s in %s)" % (what, cfg.short(rk)),
+                  rules.where(f, bb, j), fn=f)
